@@ -180,7 +180,243 @@ func checkC19(c *core.Ctx) error {
 	checkAvlClone(c, pkg)
 	// ---------------- R6 directions
 	checkAvlDirections(c, pkg)
+	// ---------------- R7 mirror twins
+	c.Rule("C19.R7", "the left- and right-handed procedures of the balance bookkeeping are mirror images (Left<->Right, balance factor k <-> -k, <= <-> >=): balance1/balance2, rotateLL/rotateRR, rotateLR/rotateRL, and the two descent branches of insert and delete", 5)
+	for _, pr := range [][2]string{{"balance1", "balance2"}, {"rotateLL", "rotateRR"}, {"rotateLR", "rotateRL"}} {
+		a, b := core.FindMethod(pkg, "AvlNode", pr[0]), core.FindMethod(pkg, "AvlNode", pr[1])
+		cons := "(*AvlNode)." + pr[0] + " ~ " + pr[1]
+		if a == nil || b == nil {
+			c.Unknown("C19.R7", cons, "both twins present", token.NoPos, "method not found")
+			continue
+		}
+		ta, tb := mirrorText(info, a.Body, false), mirrorText(info, b.Body, true)
+		diff := ""
+		if ta != tb {
+			la, lb := strings.Split(ta, "\n"), strings.Split(tb, "\n")
+			for i := 0; i < len(la) || i < len(lb); i++ {
+				x, y := "", ""
+				if i < len(la) {
+					x = la[i]
+				}
+				if i < len(lb) {
+					y = lb[i]
+				}
+				if x != y {
+					diff = fmt.Sprintf("%s has `%s` where the mirror image of %s has `%s`", pr[0], strings.TrimSpace(x), pr[1], strings.TrimSpace(y))
+					break
+				}
+			}
+		}
+		c.Check(ta == tb, "C19.R7", cons, "mirror images", b.Pos(),
+			diff+": the two procedures handle the two sides of the tree differently, so balance factors or height propagation are wrong on one side")
+	}
+	// sequential form: if i < obj.Value {...}; if i > obj.Value {...}
+	core.EachFunc(pkg, func(_ *ast.File, fd *ast.FuncDecl) {
+		if fd.Recv == nil || core.RecvTypeName(fd) != "AvlNode" || fd.Body == nil {
+			return
+		}
+		var lt, gt *ast.IfStmt
+		for _, st := range fd.Body.List {
+			is, ok := st.(*ast.IfStmt)
+			if !ok || is.Else != nil {
+				continue
+			}
+			if be, ok := is.Cond.(*ast.BinaryExpr); ok && types.ExprString(be.X) == "i" && strings.HasSuffix(types.ExprString(be.Y), ".Value") {
+				switch be.Op {
+				case token.LSS:
+					lt = is
+				case token.GTR:
+					gt = is
+				}
+			}
+		}
+		if lt == nil || gt == nil {
+			return
+		}
+		cons := fmt.Sprintf("(*AvlNode).%s left ~ right branch", fd.Name.Name)
+		ta, tb := mirrorText(info, lt.Body, false), mirrorText(info, gt.Body, true)
+		c.Check(ta == tb, "C19.R7", cons, "mirror images", gt.Pos(), "the branches for i < Value and i > Value are not mirror images of each other: deletions on the two sides rebalance differently")
+	})
+	// the two descent directions inside one procedure (case i < obj.Value / case i > obj.Value) mirror each other
+	core.EachFunc(pkg, func(_ *ast.File, fd *ast.FuncDecl) {
+		if fd.Recv == nil || core.RecvTypeName(fd) != "AvlNode" || fd.Body == nil {
+			return
+		}
+		ast.Inspect(fd.Body, func(n ast.Node) bool {
+			sw, ok := n.(*ast.SwitchStmt)
+			if !ok || sw.Tag != nil {
+				return true
+			}
+			var lt, gt *ast.CaseClause
+			for _, cs := range sw.Body.List {
+				cc := cs.(*ast.CaseClause)
+				if len(cc.List) != 1 {
+					continue
+				}
+				if be, ok := cc.List[0].(*ast.BinaryExpr); ok && strings.HasSuffix(types.ExprString(be.Y), ".Value") && types.ExprString(be.X) == "i" {
+					switch be.Op {
+					case token.LSS:
+						lt = cc
+					case token.GTR:
+						gt = cc
+					}
+				}
+			}
+			if lt == nil || gt == nil || len(lt.Body) < 1 {
+				return true
+			}
+			cons := fmt.Sprintf("(*AvlNode).%s left ~ right branch", fd.Name.Name)
+			ta := mirrorText(info, &ast.BlockStmt{List: lt.Body}, false)
+			tb := mirrorText(info, &ast.BlockStmt{List: gt.Body}, true)
+			diff := ""
+			if ta != tb {
+				la, lb := strings.Split(ta, "\n"), strings.Split(tb, "\n")
+				for i := 0; i < len(la) || i < len(lb); i++ {
+					x, y := "", ""
+					if i < len(la) {
+						x = la[i]
+					}
+					if i < len(lb) {
+						y = lb[i]
+					}
+					if x != y {
+						diff = fmt.Sprintf("the left branch has `%s` where the mirror image of the right branch has `%s`", strings.TrimSpace(x), strings.TrimSpace(y))
+						break
+					}
+				}
+			}
+			c.Check(ta == tb, "C19.R7", cons, "mirror images", gt.Pos(), diff+": insertions/deletions on the two sides update balance factors differently")
+			return true
+		})
+	})
 	return nil
+}
+
+// mirrorText prints a statement list in a canonical form; with mirror=true every handed name and every balance
+// constant is replaced by its mirror image (Left<->Right, LL<->RR, LR<->RL, integer k <-> -k, < <-> >, <= <-> >=).
+// Case clauses are sorted, so the order in which the cases are written does not matter.
+func mirrorText(info *types.Info, body *ast.BlockStmt, mirror bool) string {
+	names := map[string]string{"Left": "Right", "Right": "Left", "setLeft": "setRight", "setRight": "setLeft",
+		"rotateLL": "rotateRR", "rotateRR": "rotateLL", "rotateLR": "rotateRL", "rotateRL": "rotateLR", "balance1": "balance2", "balance2": "balance1"}
+	ops := map[token.Token]token.Token{token.LSS: token.GTR, token.GTR: token.LSS, token.LEQ: token.GEQ, token.GEQ: token.LEQ}
+	var expr func(e ast.Expr) string
+	expr = func(e ast.Expr) string {
+		switch v := e.(type) {
+		case *ast.Ident:
+			if mirror {
+				if m, ok := names[v.Name]; ok {
+					return m
+				}
+			}
+			return v.Name
+		case *ast.BasicLit:
+			if mirror && v.Kind == token.INT && v.Value != "0" {
+				return "-" + v.Value
+			}
+			return v.Value
+		case *ast.UnaryExpr:
+			if v.Op == token.SUB {
+				if bl, ok := v.X.(*ast.BasicLit); ok && bl.Kind == token.INT {
+					if mirror {
+						return bl.Value
+					}
+					return "-" + bl.Value
+				}
+			}
+			return v.Op.String() + expr(v.X)
+		case *ast.BinaryExpr:
+			op := v.Op
+			if mirror {
+				if m, ok := ops[op]; ok {
+					op = m
+				}
+			}
+			return "(" + expr(v.X) + " " + op.String() + " " + expr(v.Y) + ")"
+		case *ast.SelectorExpr:
+			return expr(v.X) + "." + expr(v.Sel)
+		case *ast.CallExpr:
+			var as []string
+			for _, a := range v.Args {
+				as = append(as, expr(a))
+			}
+			return expr(v.Fun) + "(" + strings.Join(as, ", ") + ")"
+		case *ast.ParenExpr:
+			return expr(v.X)
+		case *ast.StarExpr:
+			return "*" + expr(v.X)
+		}
+		return types.ExprString(e)
+	}
+	var stmt func(s ast.Stmt, ind string) string
+	block := func(list []ast.Stmt, ind string) string {
+		var b strings.Builder
+		for _, s := range list {
+			b.WriteString(stmt(s, ind))
+		}
+		return b.String()
+	}
+	stmt = func(s ast.Stmt, ind string) string {
+		switch v := s.(type) {
+		case *ast.AssignStmt:
+			var l, r []string
+			for _, x := range v.Lhs {
+				l = append(l, expr(x))
+			}
+			for _, x := range v.Rhs {
+				r = append(r, expr(x))
+			}
+			return ind + strings.Join(l, ", ") + " " + v.Tok.String() + " " + strings.Join(r, ", ") + "\n"
+		case *ast.ExprStmt:
+			return ind + expr(v.X) + "\n"
+		case *ast.ReturnStmt:
+			var r []string
+			for _, x := range v.Results {
+				r = append(r, expr(x))
+			}
+			return ind + "return " + strings.Join(r, ", ") + "\n"
+		case *ast.IfStmt:
+			out := ind + "if "
+			if v.Init != nil {
+				out += strings.TrimSpace(stmt(v.Init, "")) + "; "
+			}
+			out += expr(v.Cond) + " {\n" + block(v.Body.List, ind+"  ") + ind + "}"
+			if v.Else != nil {
+				switch e := v.Else.(type) {
+				case *ast.BlockStmt:
+					out += " else {\n" + block(e.List, ind+"  ") + ind + "}"
+				case *ast.IfStmt:
+					out += " else " + strings.TrimLeft(stmt(e, ind), " ")
+					return out
+				}
+			}
+			return out + "\n"
+		case *ast.SwitchStmt:
+			var cases []string
+			for _, cs := range v.Body.List {
+				cc := cs.(*ast.CaseClause)
+				var vals []string
+				for _, x := range cc.List {
+					vals = append(vals, expr(x))
+				}
+				sort.Strings(vals)
+				cases = append(cases, ind+"  case "+strings.Join(vals, ",")+":\n"+block(cc.Body, ind+"    "))
+			}
+			sort.Strings(cases)
+			tag := ""
+			if v.Tag != nil {
+				tag = expr(v.Tag)
+			}
+			return ind + "switch " + tag + " {\n" + strings.Join(cases, "") + ind + "}\n"
+		case *ast.BlockStmt:
+			return block(v.List, ind)
+		case *ast.IncDecStmt:
+			return ind + expr(v.X) + v.Tok.String() + "\n"
+		case *ast.DeclStmt:
+			return ind + "decl\n"
+		}
+		return ind + fmt.Sprintf("%T\n", s)
+	}
+	return block(body.List, "")
 }
 
 // checkSetter verifies: obj.<F> = node ; if node != nil { node.Parent = obj }
